@@ -267,7 +267,7 @@ namespace
         int nops = s.in(1, 60);
         for (int op = 0; op < nops && !s.exhausted(); ++op)
         {
-            size_t what = s.weighted({10, 5, isB ? 3 : 0, isB ? 1 : 0, 1, 2});
+            size_t what = s.weighted({10, 5, isB ? 3 : 0, isB ? 2 : 0, 1, 2, 2});
             bool deep = s.chance(64) || model.size() <= 12;
             switch (what)
             {
@@ -351,13 +351,21 @@ namespace
                 {
                     if constexpr (isB)
                     {
-                        int k = s.in(0, 5);
-                        for (int i = 0; i < k && !model.empty(); ++i)
+                        int k = s.in(0, 7);
+                        if (k >= 6)
                         {
-                            auto it = model.begin();
-                            std::advance(it, s.pick(model.size()));
-                            it->second->data = s.in(0, 15);
+                            // bulk change: every cell gets a new key before the queues are rebuilt
+                            for (auto &kv : model)
+                                kv.second->data = s.in(0, 15);
+                            k = (int)model.size();
                         }
+                        else
+                            for (int i = 0; i < k && !model.empty(); ++i)
+                            {
+                                auto it = model.begin();
+                                std::advance(it, s.pick(model.size()));
+                                it->second->data = s.in(0, 15);
+                            }
                         c.note("updateAll(%d changed) ", k);
                         grid.updateAll();
                         verify("updateAll", deep);
@@ -370,6 +378,29 @@ namespace
                     model.clear();
                     verify("clear", true);
                     break;
+                case 6:
+                {
+                    // a block of cells at once (queues of GridB get several levels deep)
+                    CoordV o = genCoord();
+                    int w = s.in(1, 6), h = dim > 1 ? s.in(1, 6) : 1;
+                    c.note("addBlock%s %dx%d ", cstr(o).c_str(), w, h);
+                    for (int a = 0; a < w; ++a)
+                        for (int b = 0; b < h; ++b)
+                        {
+                            CoordV v = o;
+                            v[0] += a;
+                            if (dim > 1)
+                                v[1] += b;
+                            if (model.count(v))
+                                continue;
+                            Cell *cell = static_cast<Cell *>(grid.createCell(toCoord(v)));
+                            cell->data = s.in(0, 15);
+                            grid.add(cell);
+                            model[v] = cell;
+                        }
+                    verify("addBlock", deep);
+                    break;
+                }
                 case 5:
                 {
                     // documented for GridN::remove (and inherited by GridB, which overrides it): a created but never added cell only gets
